@@ -5,6 +5,7 @@ package main
 import (
 	"context"
 	"fmt"
+	"strings"
 	"time"
 
 	"github.com/NethermindEth/juno/blockchain"
@@ -24,28 +25,61 @@ type detObs struct {
 	torn   string
 	tornAt int
 	feed   string // first disagreement between the L1-head feed and the stored head
+	// mode C
+	fwdOut  []string  // per step: what the forwarding loop handed on ("" = step does not use it)
+	adapter []verdict // life-cycle problems of the forwarding loop
 }
 
 func runDet(cs *Case) *detObs {
 	network := networks.Mainnet
 	chain := blockchain.New(memory.New(), &network)
 	storeH0(chain, cs.H0)
-	p := &detProvider{chainID: network.L1ChainID, failAt: -1}
+	o := &detObs{tornAt: -1}
+	p := &detProvider{chainID: network.L1ChainID, failAt: -1, decode: cs.Fwd}
+	var sess *fwdSession
+	if cs.Fwd {
+		sess = newFwdSession()
+	}
+	adapterProblem := func(i int, kind, what string) {
+		if what != "" {
+			o.adapter = append(o.adapter, verdict{"geth-adapter:" + kind, fmt.Sprintf("step %d: %s", i, what), true})
+		}
+	}
 	cl := l1.NewClient(p, chain, nopLog,
 		l1.WithCatchUpChunkSize(cs.Chunk), l1.WithResubscribeDelay(time.Millisecond))
 	ctx := context.Background()
-	o := &detObs{tornAt: -1}
 	// the L1-head feed (buffer 1, at most one commit per step): an event iff the stored head was written
 	fsub := chain.SubscribeL1Head()
 	defer fsub.Unsubscribe()
 	prevHead, _ := observeHead(chain)
 	for i, s := range cs.Steps {
 		cu := -1
+		fo := ""
+		switch {
+		case cs.Fwd && (s.K == 'U' || s.K == 'R'):
+			outs, problem := sess.push(s.E.gethLog(s.K == 'R'))
+			adapterProblem(i, "stuck", problem)
+			fo = fwdTexts(outs)
+			for _, u := range outs {
+				if u != nil {
+					cl.VerifApply(u)
+				}
+			}
+		case cs.Fwd && s.K == 'S':
+			adapterProblem(i, "error-path", sess.fail())
+			fo = "S"
+			sess = newFwdSession() // the client resubscribes
+		}
+		o.fwdOut = append(o.fwdOut, fo)
 		switch s.K {
 		case 'U':
-			cl.VerifApply(s.E.update(false))
+			if !cs.Fwd {
+				cl.VerifApply(s.E.update(false))
+			}
 		case 'R':
-			cl.VerifApply(s.E.update(true))
+			if !cs.Fwd {
+				cl.VerifApply(s.E.update(true))
+			}
 		case 'T':
 			p.finQ = []uint64{s.Fin}
 			if err := cl.VerifSetL1Head(ctx); err != nil {
@@ -82,6 +116,9 @@ func runDet(cs *Case) *detObs {
 		o.heads = append(o.heads, h)
 		o.bufs = append(o.bufs, observeBuffer(cl))
 		o.cuOK = append(o.cuOK, cu)
+	}
+	if cs.Fwd {
+		adapterProblem(len(cs.Steps), "unsubscribe", sess.quit())
 	}
 	return o
 }
@@ -199,26 +236,56 @@ func evalDet(or *hx.Oracle, cs *Case) *evalRes {
 		}
 		prev = o.heads[i]
 	}
+	if cs.Fwd {
+		for i := range res.verdicts {
+			cl := res.verdicts[i].class
+			if f := strings.Split(cl, ":"); len(f) == 3 && f[0] == "model-mismatch" {
+				cl = f[0] + ":" + f[2] // the step kind adds nothing here: the events came through the adapter
+			}
+			res.verdicts[i].class = "geth-adapter:" + cl
+		}
+		res.verdicts = append(res.verdicts, o.adapter...)
+		if gline, idx := gethStream(cs); len(idx) > 0 {
+			want := strings.Split(or.Ask(gline, 1)[0], ";")
+			for j, i := range idx {
+				if j >= len(want) || o.fwdOut[i] == want[j] {
+					continue
+				}
+				kind := "altered"
+				switch s := cs.Steps[i]; {
+				case o.fwdOut[i] == "-" && s.K == 'R':
+					kind = "dropped:removed"
+				case o.fwdOut[i] == "-":
+					kind = "dropped:live"
+				case strings.Contains(o.fwdOut[i], ","):
+					kind = "duplicated"
+				}
+				res.verdicts = append(res.verdicts, verdict{"geth-adapter:forward:" + kind,
+					fmt.Sprintf("step %d: geth event %q: the forwarding loop handed on %q, the adapter model %q",
+						i, strings.TrimSpace(strings.Split(strings.TrimPrefix(gline, "G "), ";")[j]), o.fwdOut[i], want[j]), true})
+			}
+		}
+	}
 	return res
 }
 
 // shrinkDet drops steps (and the initial head) one at a time while the class still fires.
 func shrinkDet(or *hx.Oracle, cs *Case, class string) *Case {
-	cur := &Case{H0: cs.H0, Chunk: cs.Chunk, Steps: append([]Step{}, cs.Steps...), Gen: cs.Gen}
+	cur := &Case{H0: cs.H0, Chunk: cs.Chunk, Steps: append([]Step{}, cs.Steps...), Gen: cs.Gen, Fwd: cs.Fwd}
 	for changed := true; changed; {
 		changed = false
 		for i := len(cur.Steps) - 1; i >= 0; i-- {
 			if len(cur.Steps) <= 1 {
 				break
 			}
-			cand := &Case{H0: cur.H0, Chunk: cur.Chunk, Gen: cur.Gen}
+			cand := &Case{H0: cur.H0, Chunk: cur.Chunk, Gen: cur.Gen, Fwd: cur.Fwd}
 			cand.Steps = append(append([]Step{}, cur.Steps[:i]...), cur.Steps[i+1:]...)
 			if evalDet(or, cand).has(class) != nil {
 				cur, changed = cand, true
 			}
 		}
 		if cur.H0 != nil {
-			cand := &Case{Chunk: cur.Chunk, Steps: cur.Steps, Gen: cur.Gen}
+			cand := &Case{Chunk: cur.Chunk, Steps: cur.Steps, Gen: cur.Gen, Fwd: cur.Fwd}
 			if evalDet(or, cand).has(class) != nil {
 				cur, changed = cand, true
 			}
